@@ -70,7 +70,7 @@ func (x *Explorer) enter(fr *frame, from, b *ssa.BasicBlock) {
 	}
 	// parallel assignment
 	for k, t := range newPhi {
-		fr.env[b.Instrs[k].(*ssa.Phi)] = t
+		x.setEnv(fr, b.Instrs[k].(*ssa.Phi), t)
 	}
 	x.execFrom(fr, b, i)
 	fr.visits[b] = n
